@@ -174,7 +174,7 @@ def rule_field_order(ctx):
     if "wrap(field.ident.as_ref(),&field.ty,None)" not in t or "if self.fields.len()==1{" not in t:
         ctx.report("order:expand_fields:single", ctx.where(fn.file, fn.node), "the single-field case (`value` itself, no index) changed", {})
     ex = A.get_fn(ctx.files, FROM, "Expansion::expand")
-    ts = T.templates_of(ex)
+    ts = T.templates_both(ex)
     texts = A.TList(tx(x) for x in ts)
     per_field = {
         "types": "#(#ident:)*<#tyasderive_more::core::convert::From<#from_ty>>::from(value#(.#index)*),",
@@ -215,7 +215,7 @@ def rule_field_order(ctx):
         ctx.report("order:into:kinds", ctx.where(ix.file, ix.node), "the (conversion list, is-reference, is-mutable) table of owned / ref / ref_mut changed", {})
     if "let tys=fields_tys.validate_type(out_ty)?.collect()" not in xt:
         ctx.report("order:into:validate", ctx.where(ix.file, ix.node), "Into no longer validates each listed type against the (non-skipped) field count", {})
-    its = A.TList(tx(x) for x in T.templates_of(ix))
+    its = A.TList(tx(x) for x in T.templates_both(ix))
     ctx.instance("into:template")
     if not its or "(#(<#r#m#tysasderive_more::core::convert::From<_>>::from(#r#mvalue.#fields_idents)),*)" not in its[0]:
         ctx.report("order:into:template", ctx.where(ix.file, ix.node), "Into's body is no longer one `<Ty as From<_>>::from(value.field)` per (type, field) pair in order", {})
@@ -233,7 +233,7 @@ def rule_field_order(ctx):
     sb = A.get_fn(ctx.files, CTOR, "struct_body")
     if "#return_type(#(#vars),*)" not in [tx(x) for x in T.templates_of(tb, composed=True)] or A.wsearch(A.fn_text(tb), 'numbered_vars(fields.len(),"")') is None:
         ctx.report("order:ctor:tuple", ctx.where(tb.file, tb.node), "tuple constructor body changed", {})
-    if [tx(x) for x in T.templates_of(sb)] != ["#return_type{#(#field_names:#vars),*}"] or "let vars=field_names" not in A.fn_text(sb):
+    if "#return_type{#(#field_names:#vars),*}" not in A.TList(A.TTxt(tx(x)) for x in T.templates_both(sb)) or "let vars=field_names" not in A.fn_text(sb):
         ctx.report("order:ctor:struct", ctx.where(sb.file, sb.node), "struct constructor body changed (`field: field` for each field in order)", {})
 
 
